@@ -79,6 +79,14 @@ def _ustr(names, u):
     return "*".join(parts) or "1"
 
 
+def _robs(names, R):
+    """observed result for reports (ordinary register, or exponent space for powerx)"""
+    if R.get("k") == "l":
+        unit = "*".join(f"{n}**({e[0]}/{e[1]})" for n, e in zip(names, R["ue"]) if e[0] or not e[1]) or "1"
+        return {"unit": unit, "bare": R["bare"], "dimensions_LTAE": R["dq"], "scale_exponents_2_3_5_127": R["sv"], "number_exponents": R["lv"], "si_exponents": R["si"], "k": "l"}
+    return {"unit": _ustr(names, R["u"]), "v": R["v"], "k": R["k"]}
+
+
 def _validate(ck, cases, obs, label, st):
     """cases[i] <-> obs[i]; send distinct events to TLC, turn records into verdicts"""
     names = st["table"]["names"]
@@ -97,7 +105,7 @@ def _validate(ck, cases, obs, label, st):
                 continue
             ck.drift_step(f"raise:{x['op']}.{x['meth']}", {"form": x["form"], "exc": x["exc"], "msg": x["msg"], "tb": x.get("tb"), "run": x["run"], "variant": x["variant"], "units": [_ustr(names, r["u"]) for r in cases[ci][x["run"]][:2]], "case": cases[ci]["steps"]})
         for e in o["events"]:
-            if e["kind"] == "step":
+            if e["kind"] in ("step", "stepx"):
                 core = {k: e[k] for k in ("kind", "op", "meth", "p", "A", "B", "R", "ucons")}
             else:
                 core = {k: e[k] for k in ("kind", "A", "B")}
@@ -142,7 +150,7 @@ def _validate(ck, cases, obs, label, st):
             if r["p"] == "ok":
                 if r["t"] != "undecided":
                     for ci, e in origins[:1]:
-                        ck.drift_step(f"{core['op']}.{core['meth']}", {"t": r["t"], "form": e["form"], "A": _ustr(names, core["A"]["u"]), "B": _ustr(names, core["B"]["u"]), "R": _ustr(names, core["R"]["u"]), "Rv": core["R"]["v"], "Av": core["A"]["v"], "Bv": core["B"]["v"]})
+                        ck.drift_step(f"{core['op']}.{core['meth']}", {"t": r["t"], "form": e["form"], "A": _ustr(names, core["A"]["u"]), "B": _ustr(names, core["B"]["u"]), "R": _robs(names, core["R"]), "Av": core["A"]["v"], "Bv": core["B"]["v"], "p": core["p"]})
                     for _ in origins[1:]:
                         ck.drift_step(f"{core['op']}.{core['meth']}")
                 continue
@@ -167,13 +175,20 @@ def _validate(ck, cases, obs, label, st):
                 continue
             step, r, core, e = lst[0]
             key = {"clause": "reexpress:" + r["r"], "op": e["op"], "rel": "runs", "t": "n/a"}
-            ck.violation(key, {"A": {"unit": _ustr(names, core["A"]["u"]), "v": core["A"]["v"]}, "B": {"unit": _ustr(names, core["B"]["u"]), "v": core["B"]["v"]}, "steps": cases[ci]["steps"]}, case=dict(cases[ci], only_variant=v))
+            if "u" in core["A"]:
+                det = {"A": {"unit": _ustr(names, core["A"]["u"]), "v": core["A"]["v"]}, "B": {"unit": _ustr(names, core["B"]["u"]), "v": core["B"]["v"]}, "steps": cases[ci]["steps"]}
+            else:
+                det = {"A": core["A"], "B": core["B"], "steps": cases[ci]["steps"]}
+            ck.violation(key, det, case=dict(cases[ci], only_variant=v))
             continue
         for n, (step, r, core, e) in enumerate(lst):
             if n > 0 and r["t"] != "ok":
                 continue
             key = {"clause": r["p"], "op": core["op"], "meth": core["meth"], "rel": _rel(core), "t": r["t"]}
-            detail = {"form": e["form"], "A": {"unit": _ustr(names, core["A"]["u"]), "v": core["A"]["v"]}, "B": {"unit": _ustr(names, core["B"]["u"]), "v": core["B"]["v"], "k": core["B"]["k"]}, "observed": {"unit": _ustr(names, core["R"]["u"]), "v": core["R"]["v"], "k": core["R"]["k"]}, "p": core["p"], "run": run, "step": step}
+            if core["op"] == "powerx":
+                # class of the exponent the case was generated with (projection of the case, not a verdict)
+                key["exp"] = "denominator_le_1e6" if core["p"][1] <= 1000000 else "denominator_gt_1e6"
+            detail = {"form": e["form"], "A": {"unit": _ustr(names, core["A"]["u"]), "v": core["A"]["v"]}, "B": {"unit": _ustr(names, core["B"]["u"]), "v": core["B"]["v"], "k": core["B"]["k"]}, "observed": _robs(names, core["R"]), "p": core["p"], "run": run, "step": step}
             ck.violation(key, detail, case=dict(cases[ci], only_variant=v))
 
 
@@ -196,7 +211,8 @@ def run(ck):
         "alphabet: 31 atomic units (power-of-two units in a custom registry incl. 2^-60, 2^-55, 2^70, 2^75 and a compound velocity atom: exact float arithmetic; km cm ft min percent degree arcmin radian + a custom 15-degree unit; lat/lon with their zero points (trig only); magnitude classes fm pm fs ps Zm Ym and eV keV MeV carried relative to eV), 46 leaf units incl. compounds and half-integer powers; two leaves (length-2 array; length-2 array or scalar); values from 3 small sets",
         "TLC 32-bit integers: scales are exponent vectors over the primes 2,3,5,127; value arithmetic is checked, steps whose exact evaluation would leave the range are not generated (trace side: undecided, counted)",
         "floats are matched to the rationals the specification expects: exactly on power-of-two units, rtol 1e-12 (+1e-12 of the operand magnitude for sums, differences, dot, reductions, trig and the remainders - modulus-aware) otherwise; discontinuous operations (floor_divide, mod, fmod, divmod, comparisons, sign) are judged only on exact operands or away from the jump",
-        "known findings are matched on (clause, operation, method, operand-unit relation, agreement with the transcription)",
+        "powers with general rational exponents (powerx) are judged in exponent space: base numbers that factor over 2,3,5,127, floats of the result (numbers, units.base_value, SI magnitudes) matched to the exponent vectors the specification expects within rtol 1e-12 (base_value 1e-11); exponents with denominators up to 10^7; the float handed to the library is n/d rounded to double",
+        "known findings are matched on (clause, operation, method, operand-unit relation, agreement with the transcription; for powerx also the class of the exponent: denominator <= 10^6 or beyond)",
     ]
     st = {"events": 0, "distinct_events": 0, "outside": 0, "undecided": {}, "raised": 0, "model_fail_classes": set(), "steps": 0, "by_op": {}, "table": None}
 
@@ -220,6 +236,10 @@ def run(ck):
     from common import NCPU
 
     PART_OPS = ["multiply", "divide", "floor_divide", "dot"]
+    # powers with exponents that are not ratios of small integers, judged in exponent space: leaves over every scale class
+    # (power-of-two, decimal, tiny, huge, dimensionless with a scale, compound), each with a commensurable partner for run B
+    XPAIRS = [(2, 12), (3, 1), (12, 13), (14, 5), (15, 4), (16, 6), (9, 8), (17, 8), (11, 10), (25, 26), (28, 27), (30, 29), (33, 34), (36, 35), (1, 2), (13, 14)]
+    XLEAVES = sorted({i for ab in XPAIRS for i in ab})
     leaves1 = ck.q([1, 2, 4, 6, 12, 18, 20], [1, 2, 3, 4, 5, 6, 7, 8, 12, 13, 14, 15, 16, 17, 18, 19, 20, 21])
     leaves2 = ck.q([1, 2], [1, 2, 6])
     ops2 = ck.q(["add", "multiply", "divide", "floor_divide", "remainder", "sqrt", "power", "dot"], ALL_OPS)
@@ -247,6 +267,9 @@ def run(ck):
         # dtype dimension: complex (non-zero imaginary parts), float32 and integer leaves in either operand position, on
         # the power-of-two units (exact in every dtype)
         ("len1d", "length 1, leaf dtypes (complex, float32, integers)", dict(maxlen=1, exportlen=1, leaves=[1, 2, 4], yshapes=["v"], valsets=ck.q([4], [2, 4]), reexall=False, ops=DT_OPS, pairs=[(1, 2), (2, 1), (1, 1)], dtx=DTS, dty=DTS), False),
+        ("len1x", "length 1, powers with general exponents (exponent space)", dict(maxlen=1, exportlen=1, leaves=XLEAVES, yshapes=ck.q(["v"], ["v", "s"]), valsets=[5], reexall=ck.q(False, True), ops=["powerx"], pairs=XPAIRS, xshapes=ck.q(["v"], ["v", "s"])), False),
+        # the base of such a power is itself a product / quotient / root (cancelled and compound units)
+        ("len2x", "length 2, general power of a product / quotient / root", dict(maxlen=2, exportlen=2, leaves=[1, 2, 3, 12, 13, 15], yshapes=["v"], valsets=[5], reexall=False, ops=["multiply", "divide", "sqrt", "square", "powerx"], pairs=ck.q([(2, 3), (12, 13), (12, 15)], [(2, 3), (3, 2), (12, 13), (13, 12), (12, 15), (2, 12), (1, 13)])), False),
         # length 2 (exhaustive chains) on a smaller alphabet: compound and cancelled units feed the second step
         ("len2", "programs of length 2 (exhaustive)", dict(maxlen=2, exportlen=2, leaves=leaves2, yshapes=["v"], valsets=[1], reexall=False, ops=ops2, pairs=ck.q([(1, 2)], [(1, 2), (2, 1), (2, 6), (1, 1)])), False),
         # beyond the bound: simulated longer programs
@@ -276,7 +299,7 @@ def run(ck):
             for c in cases:
                 fam.setdefault(json.dumps([c["cfg"], c["steps"][:-1]], sort_keys=True), []).append(c)
             cases = [c for k in sorted(fam) for c in rnd.sample(fam[k], min(40, len(fam[k])))]
-        minimum = {"len1": 500, "len1m": 200, "len1o": 20, "len1p": 50, "len1r": 100, "len1d": 100}.get(key, 0)
+        minimum = {"len1": 500, "len1m": 200, "len1o": 20, "len1p": 50, "len1r": 100, "len1d": 100, "len1x": 100, "len2x": 20}.get(key, 0)
         if len(cases) < minimum:
             raise MachineryFailure(f"too few cases exported by instance {key}: {len(cases)}")
         batches.append((key, cases))
